@@ -561,6 +561,15 @@ def _fold_any_n(ctx, prog, fD, conv_names):
         s = A(k)
         if s is not None and s[0] == "sub" and s[1] == Pk(0):
             return s[2]
+        if s is not None and s[0] == "elem":
+            # `for child in children[m:]`: the i-th element of the slice is child number range(m, len(children))[i]
+            d = A(s[1])
+            if d is not None and d[0] == "sub" and d[1] == Pk(0):
+                sl = A(d[2])
+                none = vkey(None)
+                if sl is not None and sl[0] == "slice" and sl[2] == none and sl[3] == none and sl[1] != none:
+                    rng_ = Poly.atom(("call", "range", (sl[1], Poly.atom(("call", "len", (Pk(0),), ())).key()), ()))
+                    return Poly.atom(("elem", rng_.key(), s[2])).key()
         return None
 
     leaves = _fold_leaves(last[1], conv_names, idx)
